@@ -237,3 +237,37 @@ func VP_C09_failpack_compressed() {
 	vp.Assert(p.Pack(w, t) != nil, "write failure is reported")
 	vp.Cover("end")
 }
+
+// large payloads (an implementation may send header and payload in separate
+// writes, or chunk the payload): a writer failing right after the header, in
+// the middle or one byte before the end is reported, plain and compressed;
+// a large frame read from a stream that ends early or fails is an error.
+func VP_C09_fail_large() {
+	n := []int{4096, 32768, 40000, 70000}[vp.Choice(4)]
+	vp.SizeBound(4*n + 64)
+	vp.Unwind(n + 64)
+	data := vp.Noise(n)
+	data[0], data[n-1] = vp.Byte(), vp.Byte()
+	p := Packet{ID: vpSmallID(), Data: data}
+	t := []int{-1, 0, 64}[vp.Choice(3)]
+	var probe bytes.Buffer
+	vp.Assert(p.Pack(&probe, t) == nil, "Pack")
+	total := probe.Len()
+	if vp.Choice(2) == 0 {
+		k := []int{0, 1, 2, 3, 4, 5, 6, total / 2, total - 1}[vp.Choice(9)]
+		w := &vpFailWriter{limit: k}
+		vp.Assert(p.Pack(w, t) != nil, "write failure is reported")
+	} else {
+		frame := append([]byte{}, probe.Bytes()...)
+		f := []int{0, 1, 3, 5, total / 2, total - 5, total - 1}[vp.Choice(7)]
+		var q Packet
+		vp.Assert(q.UnPack(&vpFailReader{b: frame, failAt: f, eof: vp.Bool()}, t) != nil, "truncated frame is an error")
+	}
+	vp.Cover("end")
+}
+
+func vpSmallID() int32 {
+	id := vp.Int32()
+	vp.Assume(id >= 0 && id < 128)
+	return id
+}
